@@ -18,9 +18,12 @@ vars == <<l>>
 
 \* generator predicate of the quantifier: rules on one domain part start with pairwise distinct literals
 \* (a rule whose domain part has variables may meet any other rule: its first literal is distinct from all)
+\* (the root rule "/" -- no segments -- meets no rule that starts with a literal)
 NonOverlap(m) == \A i, j \in 1..Len(m.rules) :
-   /\ Len(m.rules[i].segs) >= 1 /\ m.rules[i].segs[1].k = "lit"
-   /\ (i # j /\ (m.rules[i].dom = m.rules[j].dom \/ m.rules[i].dsegs # <<>> \/ m.rules[j].dsegs # <<>>)) => m.rules[i].segs[1].t # m.rules[j].segs[1].t
+   /\ Len(m.rules[i].segs) = 0 \/ m.rules[i].segs[1].k = "lit"
+   /\ (i # j /\ (m.rules[i].dom = m.rules[j].dom \/ m.rules[i].dsegs # <<>> \/ m.rules[j].dsegs # <<>>)) =>
+        IF Len(m.rules[i].segs) = 0 \/ Len(m.rules[j].segs) = 0 THEN Len(m.rules[i].segs) # Len(m.rules[j].segs)
+        ELSE m.rules[i].segs[1].t # m.rules[j].segs[1].t
 
 \* the values build() works with: None values are dropped; with append_unknown=False the values that are no
 \* argument of any rule of the endpoint play no role
@@ -32,7 +35,9 @@ EffVals(r) == LET v == Live(r.vals) IN IF r.au THEN v ELSE SelectSeq(v, LAMBDA x
 CandRules(r) == {r.map.rules[i] : i \in Candidates(r.map.rules, r.ep, EffVals(r))}
 HasMulti(x) == \E i \in 1..Len(x.segs) : x.segs[i].k = "var" /\ x.segs[i].more # <<>>
 HasRange(x) == \E i \in 1..Len(AllVars(x)) : AllVars(x)[i].conv.hasmin \/ AllVars(x)[i].conv.hasmax
-Feature(r) == IF r.map.dsub # <<>> THEN "Sub"
+Feature(r) == IF r.hist < 0 THEN "Conc"      \* round trip made by a second thread while the first use of the Map was parked inside Map.update()
+              ELSE IF r.hist > 0 THEN "Alias"      \* a later round trip of a history on one Map / adapter (results and inputs were mutated in between)
+              ELSE IF r.map.dsub # <<>> THEN "Sub"
               ELSE IF \E x \in CandRules(r) : HasPlaceholderDefault(x) THEN "Def"
               ELSE IF \E x \in CandRules(r) : x.dsegs # <<>> THEN "Dom"
               ELSE IF \E x \in CandRules(r) : HasMulti(x) THEN "Multi"
